@@ -461,7 +461,7 @@ def isProjE (e : AffS) : Bool :=
   | [(1, _)], 0 => false
   | _, _ => true
 
-def normAcc (a : AccA) : AccA := ⟨normE a.e, isProjE (normE a.e)⟩
+def normAcc (a : AccA) : AccA := { e := normE a.e, proj := isProjE (normE a.e) }
 def normTensor (x : TensorAS) : TensorAS := { x with idx := x.idx.map normAcc }
 def normTerm (t : TermAS) : TermAS := { t with tensors := t.tensors.map normTensor }
 
